@@ -250,6 +250,12 @@ class Normalizer:
             if l == "mk_constant" and len(args) == 1 and args[0][0] in ("bin", "not", "ite", "matches") and "HctlTreeNode" in path:
                 # a node built from a truth value that is computed: the node of each case
                 return self.rewrite(("ite", args[0], ("call", path, (("lit", True),)), ("call", path, (("lit", False),))))
+            if l == "transpose" and len(args) == 1 and "Option" in path and args[0][0] == "hof" and args[0][1] == "map" and self.is_option_hof(args[0]):
+                # opt.map(f).transpose() for a fallible f:  Some(x) -> f(x).map(Some),  None -> Ok(None)
+                o, body = args[0][2], args[0][3]
+                inner = ("ite", M(body, "ok"), ("ctor", OK, (("ctor", SOME, (self.proj(body, OK, 0),)),)),
+                         ("ctor", "std::prelude::v1::Err", (("proj", body, "std::prelude::v1::Err", 0),)))
+                return self.rewrite(("ite", self.rewrite(M(o, "some")), inner, ("ctor", OK, (("ctor", "std::prelude::v1::None", ()),))))
             if l == "then_some" and len(args) == 2 and "bool" in path:
                 # c.then_some(v)  ==  if c { Some(v) } else { None }
                 return self.rewrite(("ite", args[0], ("ctor", SOME, (args[1],)), ("ctor", "std::prelude::v1::None", ())))
